@@ -168,6 +168,9 @@ def solve_case(job):
                 meanFreePathScale=spec["meanFreePathScale"],
                 wallThicknessGuess=spec["wallThicknessGuess"])
             res = manager.solveWall(settings)
+            if res.wallVelocity is None:
+                raise RuntimeError("solveWall returned no wall velocity (message: %s)" % (
+                    getattr(res, "message", None),))
             out.update(success=bool(res.success), vw=float(res.wallVelocity),
                        vwLTEres=float(res.wallVelocityLTE),
                        width=float(res.wallWidths[0]),
@@ -570,13 +573,34 @@ Local Open Scope R_scope.
         tin = dy(float(L * (Fraction(1, 2) + sm) / r) * rng.uniform(1.2, 6), 6)
         tout = dy(float(L * (Fraction(1, 2) + sm) / r) * rng.uniform(1.2, 6), 6)
         g1 = Grid3Scales(6, 3, float(tin), float(tout), float(L), 1.0, float(r), float(sm), 0.0)
-        call = "(gr_updateParameters (mk_gr_env tt) (mk_gr_st 0 0 0 0 0 0 0 0) %s %s %s %s %s 0)" % (
-            R(tin), R(tout), R(L), R(r), R(sm))
+        zeros = " ".join("0" for _ in gen_units.GRID_ATTRS)
+        call = "(gr_updateParameters (mk_gr_env tt) (mk_gr_st %s) %s %s %s %s %s 0)" % (
+            zeros, R(tin), R(tout), R(L), R(r), R(sm))
         names = " ".join(["gr_updateParameters", "gr_aIn", "gr_aOut"] +
                          ["set_gr_" + a for a in gen_units.GRID_ATTRS])
         pre = "cbv beta iota zeta delta [%s];" % names
         goal("gr_aIn %s" % call, g1.aIn, pre)
         goal("gr_aOut %s" % call, g1.aOut, pre)
+        # the coordinate maps, on the object's own (float) parameters
+        vals = dict(tailLengthInside=g1.tailLengthInside, tailLengthOutside=g1.tailLengthOutside,
+                    wallThickness=g1.wallThickness, ratioPointsWall=g1.ratioPointsWall,
+                    smoothing=g1.smoothing, wallCenter=g1.wallCenter, aIn=float(g1.aIn),
+                    aOut=float(g1.aOut), momentumFalloffT=g1.momentumFalloffT)
+        gs = "gs%d" % k
+        hdr += "Definition %s : gr_st := {| %s |}.\n" % (gs, "; ".join(
+            "gr_%s := %s" % (a, R(Fraction(float(vals[a])))) for a in gen_units.GRID_ATTRS))
+        chi = dy(rng.uniform(-0.95, 0.95), 8)
+        rho = dy(rng.uniform(-0.9, 0.9), 8)
+        rpp = dy(rng.uniform(-0.9, 0.9), 8)
+        z1, pz1, pp1 = g1.decompactify(np.array(float(chi)), np.array(float(rho)),
+                                        np.array(float(rpp)))
+        pre = ("unfold gr_decompactify, gr_totalMapping, gr_term1, gr_term2, gr_term3, gr_term4, "
+               "gr_term5, atanh_R, %s; cbn [fst snd %s];" % (
+                   gs, " ".join("gr_" + a for a in gen_units.GRID_ATTRS)))
+        dc = "(gr_decompactify (mk_gr_env tt) %s %s %s %s)" % (gs, R(chi), R(rho), R(rpp))
+        goal("fst (fst %s)" % dc, float(z1), pre)
+        goal("snd (fst %s)" % dc, float(pz1), pre)
+        goal("snd %s" % dc, float(pp1), pre)
     return hdr + "\n".join(goals) + "\n", rows
 
 
@@ -656,7 +680,7 @@ def run(ctx):
         ctx.broken.append("harness: formula checks raised %r" % ex)
     # metamorphic end-to-end runs
     search = bool(ctx.broken) or sites_changed
-    W, H = ("lte", "wall"), ("lte",)
+    W, H = ("lte", "wall"), ()
     if ctx.quick and not search:
         plan = [("yukawa", "default", [1e-2, 100.0], W), ("quarticwide", "default", [1e-2], H)]
     elif ctx.quick:
